@@ -54,6 +54,7 @@ func c16Validator(q sdkstakingkeeper.Querier, c context.Context, req *stakingtyp
 func c16FormatPubkey(pk *codectypes.Any) string { return "pubkey" }
 
 func VerifC16_StakingQueries() {
+	c16s.found, c16s.tokens, c16s.total, c16s.shares = false, sdkmath.ZeroInt(), sdk.OneDec(), sdk.ZeroDec()
 	env := zz.NewEnv([]string{"staking"}, nil)
 	ctx := env.Ctx.WithBlockTime(time.Unix(1700000000, 0))
 	p := Precompile{Precompile: cmn.Precompile{}, stakingKeeper: stakingkeeper.Keeper{Keeper: &sdkstakingkeeper.Keeper{}}}
